@@ -573,3 +573,65 @@ def rule_printsym(ctx, prop: str) -> RuleResult:
         raise AnalysisError(f"PRINTSYM: only {n_wrapped} get_name/new_name-wrapped symbol fields recognised in the printer — idiom changed, checker blind")
     res.floor = 20
     return res
+
+
+def rule_validname(ctx, prop: str) -> RuleResult:
+    """Every name a user hands to a scheduling operation (new loop iterators, buffer names,
+    `rename`) and every Sym passes `is_valid_name`.  The printer writes such a name verbatim into
+    Python syntax, so the test must admit exactly identifiers that can stand there: the whole
+    string matches (`\\Z` or fullmatch — `$` also matches before a trailing newline) and it is not
+    a Python keyword.  Otherwise `divide_loop(p, 'i', 4, ['in', 'if'])` returns a procedure that
+    has no printed form at all (the formatter raises)."""
+    import re as _re
+
+    try:
+        import re._parser as sre_parse
+    except Exception:  # pragma: no cover
+        import sre_parse
+    ix = ctx.ix
+    res = RuleResult("VALIDNAME")
+    PR = "src/exo/core/prelude.py"
+    m = ix.module(PR)
+    f = m.funcs.get("is_valid_name")
+    if f is None:
+        raise AnalysisError("anchor vanished: prelude.is_valid_name")
+    res.analysed.append(f"{PR}:is_valid_name")
+    # the pattern it matches
+    pats = []
+    meth = None
+    for n in f.body_nodes():
+        if isinstance(n, ast.Call) and isinstance(n.func, ast.Attribute) and n.func.attr in ("match", "fullmatch", "search") and isinstance(n.func.value, ast.Name):
+            meth = n.func.attr
+            src = m.assigns.get(n.func.value.id)
+            if isinstance(src, ast.Call) and src.args and isinstance(src.args[0], ast.Constant) and isinstance(src.args[0].value, str):
+                pats.append(src.args[0].value)
+    if not pats:
+        raise AnalysisError("anchor vanished: is_valid_name no longer matches a compiled module-level pattern")
+    res.instances += 1
+    res.nontrivial += 1
+    items = list(sre_parse.parse(pats[0]))
+    last = items[-1] if items else None
+    whole = meth == "fullmatch" or (last is not None and str(last[0]) == "AT" and "END_STRING" in str(last[1]))
+    res.ob(whole)
+    res.sample(f"is_valid_name: `{pats[0]}` ({meth}) consumes the whole string: {whole}")
+    if not whole:
+        res.add(Finding("VALIDNAME", PR, f.lineno, "is_valid_name", "whole-string",
+                        f"`{pats[0]}` with .{meth}() does not require the whole string to be an identifier (`$` also matches before a trailing newline): 'io\\n' is accepted as a loop name and the procedure cannot be printed"))
+    res.instances += 1
+    res.nontrivial += 1
+    kw = any(isinstance(n, ast.Call) and (dotted(n.func) or "").split(".")[-1].lstrip("_") == "iskeyword" for n in f.body_nodes())
+    res.ob(kw)
+    res.sample(f"is_valid_name rejects Python keywords: {kw}")
+    if not kw:
+        res.add(Finding("VALIDNAME", PR, f.lineno, "is_valid_name", "keywords",
+                        "is_valid_name accepts Python keywords: divide_loop(p, 'i', 4, ['in', 'if']) returns a procedure whose text `for in in seq(...)` is not Python — it has no printed form"))
+    # Sym construction goes through it
+    sy = m.cls("Sym")
+    init = sy.methods.get("__init__") if sy else None
+    res.instances += 1
+    ok = init is not None and any(isinstance(n, ast.Call) and last_name(n) == "is_valid_name" for n in init.body_nodes())
+    res.ob(ok)
+    if not ok:
+        res.add(Finding("VALIDNAME", PR, (init or f).lineno, "Sym.__init__", "sym-checked", "Sym.__init__ must validate its name with is_valid_name"))
+    res.floor = 3
+    return res
